@@ -59,6 +59,20 @@ class C01Monitor(Monitor):
                 if sd is not _UNOBS and sd is not None:
                     check_points(x, [sd.genome], w.box, "sprout seed", engines[l])
             x.flag("boundary checked")
+            if kind == "end":
+                for l, d in tree.all_demes:
+                    es = getattr(d, "_cma_es", None)
+                    try:
+                        if es is not None and es.stop() and not d.is_active:
+                            x.flag("a CMA-ES deme terminated itself")
+                    except Exception:
+                        pass
+                    if engines[l] == "SEAA" and x.desc.get("seaa_step_factor", 0) >= 1.0:
+                        try:
+                            if d._get_mutation_std() > float(np.max(w.box[:, 1] - w.box[:, 0])):
+                                x.flag("adaptive mutation spread outgrew the box")
+                        except Exception:
+                            pass
         elif kind == "round_end":
             for d, c in info["seeds"].items():
                 check_points(x, [i.genome for i in c.individuals], w.box, "sprout seed", x.desc["engines"][d.level])
@@ -116,6 +130,15 @@ def units(tier, seed):
         for k, eng in enumerate(shapes_h3_all()):
             descs.append(dict(engines=list(eng), gens=1 + k % 2, box=("B_asym", "B_dec", "B_3d")[k % 3], obj=("lin_corner", "sphere_in")[k % 2],
                               maximize=bool(k % 2), Mh=3, seed=s, sprout={"kind": ("simple", "nbc")[(k // 2) % 2], "L": 2}))
+    # long runs: CMA-ES leaves run until they terminate themselves (optimum in a corner: the strategy's internal mean
+    # lies outside the box by then), and an adaptive mutation spread that starts small and outgrows the box
+    for k, eng in enumerate([("LHS", "CMAf"), ("SEA", "CMAs"), ("DE", "CMAw"), ("SOB", "DE", "CMAf")]):
+        for box in ("B_asym", "B_3d"):
+            descs.append(dict(engines=list(eng), gens=10, box=box, obj="lin_corner", maximize=bool(k % 2), Mh=14, seed=s + k, sprout={"kind": "simple", "L": 1}, want_cma_stop=True))
+    for k, eng in enumerate([("SEAA",), ("SEAA", "DE"), ("SEAA", "CMAf"), ("LHS", "SEAA")]):
+        for box in ("B_sym", "B_dec", "B_3d"):
+            descs.append(dict(engines=list(eng), gens=3, box=box, obj=("sphere_in", "lin_corner")[k % 2], maximize=bool(k % 2), Mh=8, seed=s + k, sprout={"kind": "simple", "L": 1},
+                              mstd_factor=0.1, seaa_step_factor=2.0, lsc=[None] * len(eng)))
     us = [{"kind": "run", "descs": c} for c in chunks(descs, 40)]
     # R deviations, bound 1 over every draw call
     rshapes = rep_shapes() if tier == "thorough" else rep_shapes()[:14]
@@ -168,6 +191,9 @@ def finish(res, tier):
         raise Vacuous("fewer than 500 executions with a point exactly on a face")
     if res.dev_kinds["R"] < 1000:
         raise Vacuous("fewer than 1000 RNG deviations explored")
+    for f in ("a CMA-ES deme terminated itself", "adaptive mutation spread outgrew the box"):
+        if res.flags[f] < 4:
+            raise Vacuous(f"coverage flag '{f}' seen in {res.flags[f]} executions only")
     if res.configs_completed < res.configs:
         raise Vacuous(f"{res.configs - res.configs_completed} configurations without any completed execution")
     return {}
